@@ -179,7 +179,7 @@ Section Chars.
         * destruct (nel c) eqn:Enel.
           -- exists cs2. split; [apply St_pos; exact H|]. split; [cbn; lia|].
              cbn [eol_norm]. rewrite ND, En, Enel. reflexivity.
-          -- exists cs2. split; [exact H|]. split; [cbn; lia|]. apply eol_plain; auto. rewrite Enel. reflexivity.
+          -- exists cs2. split; [destruct (nelcol c); exact H|]. split; [cbn; lia|]. apply eol_plain; auto. rewrite Enel. reflexivity.
         * exists cs2. split; [apply St_pos; exact H|]. split; [cbn; lia|]. apply eol_plain; auto.
           rewrite En. now destruct (nel c).
   Qed.
